@@ -11,6 +11,8 @@ CHECKS = {
          "Lean 4 proof (induction over nesting trees, depth decomposition) + translators (scope map, env parsing) + exhaustive differential", "5/C18"),
  "C20": ("Lean theorem kept_eq_requested: de-duplicating the concatenated head/tail/sample by key equals de-duplicating by position whenever keys of distinct rows are distinct (all n, h, t, all sample draws), plus witnesses for the two recorded regions; differential: verdict with options vs verdict on the positional frame, pandas and polars",
          "Lean 4 proof (selection = positional selection under injective keys) + differential correspondence", "5/C20"),
+ "C19": ("Lean theorems for every check function: element_wise = vectorised map; ignore_na hides nulls / verdict independent of null rows; n_failure_cases keeps the verdict and truncates to a prefix; raise_warning never fails and warns iff the check would fail; groupby hands exactly the requested groups; aliases = canonical built-ins over the table regenerated from api/checks.py. Differential: Check(...)(series) results, values shown to the function and validate outcomes vs the backend model, metamorphic relations on the implementation",
+         "Lean 4 proof (check backend model, all functions) + translator (Check API table) + differential correspondence", "5/C19"),
 }
 NA = {}
 for i in range(1, 21):
